@@ -18,6 +18,7 @@ import (
 
 	"github.com/tuneinsight/lattigo/v6/core/rlwe"
 	"github.com/tuneinsight/lattigo/v6/ring"
+	"github.com/tuneinsight/lattigo/v6/schemes/ckks"
 
 	"verif/harness/internal/tr"
 )
@@ -433,6 +434,9 @@ func (c *sctx) run(pg prog, rng *rand.Rand, emit func(ev)) {
 
 // Main: vrun rpack sets | vrun rpack exec --progs f --trace out --seed s
 func Main(args []string) int {
+	if args[0] == "bridge" {
+		return BridgeMain(args)
+	}
 	if args[0] == "sets" {
 		infos := []SetInfo{}
 		for _, d := range sets {
@@ -475,6 +479,177 @@ func Main(args []string) int {
 		})
 	}
 	_ = ring.Standard
+	res := tr.Result{Events: w.N, Cases: n}
+	res.Print()
+	return 0
+}
+
+// ---------------------------------------------------------------------------------------------------------------
+// Standard / conjugate-invariant swap (ckks.DomainSwitcher), driven at the ckks level: slot vectors of small
+// integers, recorded in sixteenths.
+
+type bridgeCfg struct {
+	Dir     string `json:"dir"` // r2c | c2r
+	LvlIn   int    `json:"lvlin"`
+	LvlRecv int    `json:"lvlrecv"`
+	Key     string `json:"key"` // default | base2 | lowq | compressed
+}
+
+type bridgeCtx struct {
+	ci, std     ckks.Parameters
+	skCI, skStd *rlwe.SecretKey
+	sw          map[string]ckks.DomainSwitcher
+	eval        *ckks.Evaluator
+}
+
+var bctx *bridgeCtx
+
+func getBridge() *bridgeCtx {
+	if bctx != nil {
+		return bctx
+	}
+	ci, err := ckks.NewParametersFromLiteral(ckks.ParametersLiteral{LogN: 5, LogQ: []int{55, 45, 45}, LogP: []int{56}, LogDefaultScale: 40, RingType: ring.ConjugateInvariant})
+	tr.Must(err)
+	lit := ci.ParametersLiteral()
+	lit.LogN, lit.RingType, lit.P, lit.LogP = ci.LogN()+1, ring.Standard, nil, []int{57} // another auxiliary modulus on the standard side
+	std, err := ckks.NewParametersFromLiteral(lit)
+	tr.Must(err)
+	b := &bridgeCtx{ci: ci, std: std, sw: map[string]ckks.DomainSwitcher{}}
+	b.skCI = rlwe.NewKeyGenerator(ci).GenSecretKeyNew()
+	kg := rlwe.NewKeyGenerator(std)
+	b.skStd = kg.GenSecretKeyNew()
+	b.eval = ckks.NewEvaluator(std, nil)
+	for name, kp := range map[string][]rlwe.EvaluationKeyParameters{
+		"default":    nil,
+		"base2":      {{BaseTwoDecomposition: ip(12)}},
+		"lowq":       {{LevelQ: ip(1)}},
+		"compressed": {{Compressed: true}},
+	} {
+		c2r, r2c := kg.GenEvaluationKeysForRingSwapNew(b.skStd, b.skCI, kp...)
+		if name == "compressed" {
+			tr.Must(c2r.Expand(std, nil))
+			tr.Must(r2c.Expand(std, nil))
+		}
+		sw, err := ckks.NewDomainSwitcher(std, c2r, r2c)
+		tr.Must(err)
+		b.sw[name] = sw
+	}
+	bctx = b
+	return b
+}
+
+func (b *bridgeCtx) runBridge(cf bridgeCfg, rng *rand.Rand) ev {
+	e := ev{"ev": "rp", "op": cf.Dir, "set": "bridge", "args": cf, "key": cf.Key, "lvlin": cf.LvlIn, "lvlrecv": cf.LvlRecv,
+		"re": []int64{}, "im": []int64{}, "outre": []int64{}, "outim": []int64{}, "lvlout": -1, "lgscale": 0, "cons": true, "inok": true}
+	n := b.ci.MaxSlots()
+	re, im := make([]int64, n), make([]int64, n)
+	vals := make([]complex128, n)
+	for i := range vals {
+		re[i], im[i] = int64(rng.Intn(17))-8, int64(rng.Intn(17))-8
+		if cf.Dir == "r2c" {
+			im[i] = 0
+		}
+		vals[i] = complex(float64(re[i]), float64(im[i]))
+	}
+	sixteenths := func(v []complex128) (r, i []int64, ok bool) {
+		ok = true
+		for _, x := range v {
+			a, c := real(x)*16, imag(x)*16
+			ra, rc := int64(a+0.5*sign(a)), int64(c+0.5*sign(c))
+			if abs(a-float64(ra)) > 0.05 || abs(c-float64(rc)) > 0.05 {
+				ok = false
+			}
+			r, i = append(r, ra), append(i, rc)
+		}
+		return
+	}
+	var in, out *rlwe.Ciphertext
+	var err error
+	var pan bool
+	var msg string
+	sw := b.sw[cf.Key]
+	if cf.Dir == "r2c" {
+		pt := ckks.NewPlaintext(b.ci, cf.LvlIn)
+		tr.Must(ckks.NewEncoder(b.ci).Encode(vals, pt))
+		in, err = rlwe.NewEncryptor(b.ci, b.skCI).EncryptNew(pt)
+		tr.Must(err)
+		out = ckks.NewCiphertext(b.std, 1, cf.LvlRecv)
+		before := snap(in)
+		err, pan, msg = guarded(func() error { return sw.RealToComplex(b.eval, in, out) })
+		e["inok"] = snap(in) == before
+		if err == nil && !pan {
+			got := make([]complex128, n)
+			tr.Must(ckks.NewEncoder(b.std).Decode(rlwe.NewDecryptor(b.std, b.skStd).DecryptNew(out), got))
+			r, i, ok := sixteenths(got)
+			e["outre"], e["outim"], e["cons"] = r, i, ok
+		}
+	} else {
+		pt := ckks.NewPlaintext(b.std, cf.LvlIn)
+		tr.Must(ckks.NewEncoder(b.std).Encode(vals, pt))
+		in, err = rlwe.NewEncryptor(b.std, b.skStd).EncryptNew(pt)
+		tr.Must(err)
+		out = ckks.NewCiphertext(b.ci, 1, cf.LvlRecv)
+		before := snap(in)
+		err, pan, msg = guarded(func() error { return sw.ComplexToReal(b.eval, in, out) })
+		e["inok"] = snap(in) == before
+		if err == nil && !pan {
+			got := make([]complex128, n)
+			tr.Must(ckks.NewEncoder(b.ci).Decode(rlwe.NewDecryptor(b.ci, b.skCI).DecryptNew(out), got))
+			r, i, ok := sixteenths(got)
+			e["outre"], e["outim"], e["cons"] = r, i, ok
+		}
+	}
+	for i := range re {
+		re[i], im[i] = re[i]*16, im[i]*16
+	}
+	e["re"], e["im"] = re, im
+	if err == nil && !pan {
+		e["lvlout"] = out.Level()
+		ratio := out.Scale.Float64() / in.Scale.Float64()
+		e["lgscale"] = int64(ratio*1000 + 0.5) // thousandths: 1000 = same scale, 2000 = doubled
+	}
+	e["err"], e["panic"], e["msg"] = err != nil, pan, msg
+	return e
+}
+
+func sign(x float64) float64 {
+	if x < 0 {
+		return -1
+	}
+	return 1
+}
+
+func abs(x float64) float64 {
+	if x < 0 {
+		return -x
+	}
+	return x
+}
+
+// BridgeMain: vrun rpack bridge --cfgs f --trace out --seed s
+func BridgeMain(args []string) int {
+	fs := flag.NewFlagSet("bridge", flag.ExitOnError)
+	cfgs := fs.String("cfgs", "", "configurations")
+	trace := fs.String("trace", "", "trace")
+	seed := fs.Int64("seed", 1, "seed")
+	fs.Parse(args[1:])
+	tr.Seed(uint64(*seed))
+	rng := rand.New(rand.NewSource(*seed))
+	w := tr.NewWriter(*trace)
+	defer w.Close()
+	f, err := os.Open(*cfgs)
+	tr.Must(err)
+	defer f.Close()
+	sc := bufio.NewScanner(f)
+	n := 0
+	for sc.Scan() {
+		var cf bridgeCfg
+		tr.Must(json.Unmarshal(sc.Bytes(), &cf))
+		n++
+		e := getBridge().runBridge(cf, rng)
+		e["prog"], e["fork"], e["indep"] = n, 1, true
+		w.Emit(e)
+	}
 	res := tr.Result{Events: w.N, Cases: n}
 	res.Print()
 	return 0
